@@ -1,7 +1,790 @@
-//! C09 — not implemented yet.
+//! C09 — VCF headers and records round-trip through text; the lazy `vcf::Record` agrees with the
+//! eager `RecordBuf`; both report the same variant span.
+//!
+//! Oracles (record sub-check), for every record of a generated document:
+//!   1. `Reader::read_record_buf(Writer::write_variant_record(x)) = x` under the normal form of
+//!      `VarRecord::normalised(Target::VcfText)` (NaN as a class, REF IUPAC reduction, `[.]` ≡ `.`);
+//!   2. an independent line parser written from the VCF grammar (tab / `;` / `=` / `,` / `:`
+//!      splitting, percent-decoding, header-directed typing) reads the writer's line as `x` — this
+//!      judges the writer alone, so a writer/reader pair that is wrong symmetrically is still seen;
+//!   3. lazy `vcf::Record`: every accessor (trait sweep + `Info::get`, `Samples::select`,
+//!      `Series::iter/get`, `Sample::get/get_index`) and `RecordBuf::try_from_variant_record` equal
+//!      the eager parse; writing the lazy record reproduces the line;
+//!   4. `variant_end` / `variant_span` agree between lazy, eager and input record, and equal the
+//!      harness's own arithmetic in the unambiguous cases (`gen::var::harness_end`);
+//!   5. `write(parse(line)) = line`.
 
 use crate::engine::*;
+use crate::ensure;
+use crate::r#gen::var::{self, *};
+use noodles_vcf as vcf;
+use proptest::prelude::*;
+use vcf::variant::io::Write as _;
+
+// ------------------------------------------------------------------------------------------------
+// header round trip
+// ------------------------------------------------------------------------------------------------
+
+fn header_strategy(tier: Tier) -> BoxedStrategy<VarHeader> {
+    let base = Mode { extended_numbers_permille: 12, ..Mode::vcf_full() };
+    let with_idx = Mode { idx: IdxMode::Arbitrary, ..base.clone() };
+    let nat_idx = Mode { idx: IdxMode::Natural, ..base.clone() };
+    prop_oneof![
+        95 => var::header(tier, &base),
+        2 => var::header(tier, &with_idx),
+        3 => var::header(tier, &nat_idx),
+    ]
+    .boxed()
+}
+
+fn strip_idx(h: &VarHeader) -> VarHeader {
+    let mut h = h.clone();
+    for d in h.infos.iter_mut().chain(h.formats.iter_mut()) {
+        d.idx = None;
+    }
+    for d in h.filters.iter_mut() {
+        d.idx = None;
+    }
+    for c in h.contigs.iter_mut() {
+        c.idx = None;
+    }
+    h
+}
+
+fn write_header_text(h: &vcf::Header) -> Result<Vec<u8>, Vec<Fail>> {
+    let mut w = vcf::io::Writer::new(Vec::new());
+    w.write_header(h).map_err(|e| vec![Fail::new("c09.header.write-error", format!("write_header: {e}"))])?;
+    Ok(w.into_inner())
+}
+
+fn header_diff(a: &VarHeader, b: &VarHeader) -> String {
+    macro_rules! cmp {
+        ($f:ident) => {
+            if a.$f != b.$f {
+                return format!("{}: expected {} got {}", stringify!($f), trunc(&format!("{:?}", a.$f), 500), trunc(&format!("{:?}", b.$f), 500));
+            }
+        };
+    }
+    cmp!(minor);
+    cmp!(infos);
+    cmp!(filters);
+    cmp!(formats);
+    cmp!(alts);
+    cmp!(contigs);
+    cmp!(others);
+    cmp!(samples);
+    "equal".into()
+}
+
+fn check_header(c: &VarHeader) -> Verdict {
+    let mut fails = Fails::new();
+    let h = c.to_noodles().map_err(|e| vec![Fail::new(HARNESS_ERR, format!("model outside the builder domain: {e}"))])?;
+    let built = VarHeader::from_noodles(&h);
+    ensure!(built == c.normalised(), "c09.header.builder-model", "header built through the public builders does not show the model back: {}", header_diff(&c.normalised(), &built));
+    let text = write_header_text(&h)?;
+    let s = std::str::from_utf8(&text).map_err(|e| vec![Fail::new("c09.header.text-not-utf8", format!("{e}"))])?;
+    ensure!(s.ends_with('\n') && s.lines().all(|l| l.starts_with('#')), "c09.header.text-shape", "header text has a line that does not start with '#' or lacks the final newline: {:?}", trunc(s, 400));
+    ensure!(s.lines().next() == Some(&format!("##fileformat=VCFv4.{}", c.minor)[..]), "c09.header.fileformat-line", "first line is {:?}", s.lines().next());
+    let extended = c.formats.iter().any(|d| matches!(d.number, Num::LA | Num::LR | Num::LG | Num::P | Num::M));
+
+    let mut r = vcf::io::Reader::new(&text[..]);
+    let parsed = match r.read_header() {
+        Ok(p) => p,
+        Err(e) => {
+            let sig = if extended { "c09.header.format-number-code-unparsed" } else { "c09.header.parse-error" };
+            return fail1(sig, format!("the reader rejects the writer's header text: {e}; text: {:?}", trunc(s, 600)));
+        }
+    };
+    let back = VarHeader::from_noodles(&parsed);
+    let want = c.normalised();
+    if back != want {
+        if has_idx(c) && back == strip_idx(&want) {
+            fails.push("c09.header.idx-not-written", format!("IDX fields are lost: the header writer never emits IDX; e.g. text {:?}", trunc(s, 300)));
+        } else {
+            fails.push("c09.header.roundtrip", format!("parse(write(h)) != h: {}; text: {:?}", header_diff(&want, &back), trunc(s, 600)));
+        }
+    } else if parsed != h {
+        fails.push("c09.header.roundtrip-eq", "models are equal but noodles' Header values compare unequal".to_string());
+    }
+    // FromStr path
+    match s.parse::<vcf::Header>() {
+        Ok(p2) => {
+            if p2 != parsed {
+                fails.push("c09.header.fromstr-differs", format!("Header::from_str and Reader::read_header disagree: {}", header_diff(&back, &VarHeader::from_noodles(&p2))));
+            }
+        }
+        Err(e) => fails.push("c09.header.fromstr-error", format!("Header::from_str rejects the text that read_header accepts: {e}")),
+    }
+    // write(parse(t)) = t
+    let text2 = write_header_text(&parsed)?;
+    if text2 != text && !(has_idx(c) && back == strip_idx(&want)) {
+        fails.push("c09.header.rewrite", format!("write(parse(t)) != t: {:?} vs {:?}", trunc(&String::from_utf8_lossy(&text2), 400), trunc(s, 400)));
+    }
+    // the reader must stop exactly after the header
+    let mut rest = Vec::new();
+    if std::io::Read::read_to_end(r.get_mut(), &mut rest).is_ok() && !rest.is_empty() {
+        fails.push("c09.header.reader-position", format!("{} bytes left after read_header on a header-only text", rest.len()));
+    }
+
+    let maps = c.infos.len() + c.formats.len() + c.filters.len() + c.alts.len() + c.contigs.len() + c.others.len();
+    let esc = |s: &str| s.contains('"') || s.contains('\\');
+    let any_esc = c.infos.iter().chain(&c.formats).any(|d| esc(&d.description) || d.extra.iter().any(|(_, v)| esc(v))) || c.filters.iter().any(|d| esc(&d.description)) || c.alts.iter().any(|d| esc(&d.description));
+    let nums: Vec<Num> = c.infos.iter().chain(&c.formats).map(|d| d.number).collect();
+    let pass = Pass::new(maps >= 3, key_of(c))
+        .label(["v4.2", "v4.3", "v4.4", "v4.5", "v?"][(c.minor as usize).saturating_sub(2).min(4)])
+        .label_if(any_esc, "quote-or-backslash-in-string")
+        .label_if(c.infos.iter().chain(&c.formats).any(|d| !d.extra.is_empty()), "extra-tags")
+        .label_if(c.others.iter().any(|o| matches!(o.value, OtherValue::Text(_))), "other-unstructured")
+        .label_if(c.others.iter().any(|o| matches!(o.value, OtherValue::Map { .. })), "other-structured")
+        .label_if(c.others.iter().any(|o| o.key == "META"), "META")
+        .label_if(c.others.iter().any(|o| o.key == "PEDIGREE"), "PEDIGREE")
+        .label_if(has_idx(c), "idx-present")
+        .label_if(!c.samples.is_empty(), "samples")
+        .label_if(c.contigs.iter().any(|x| x.length.is_some() || x.md5.is_some() || x.url.is_some()), "contig-optional-fields")
+        .label_if(nums.contains(&Num::A), "Number=A")
+        .label_if(nums.contains(&Num::R), "Number=R")
+        .label_if(nums.contains(&Num::G), "Number=G")
+        .label_if(nums.contains(&Num::Unknown), "Number=.")
+        .label_if(nums.contains(&Num::Count(0)), "Number=0")
+        .label_if(nums.iter().any(|n| matches!(n, Num::Count(k) if *k >= 2)), "Number=n")
+        .label_if(extended, "format-number-extended")
+        .label_if(c.infos.iter().any(|d| reserved_info_def(c.minor.max(3), &d.id).is_some()), "reserved-info-id")
+        .label_if(c.filters.iter().any(|d| d.id == "PASS"), "explicit-PASS-line")
+        .label_if(maps == 0, "empty-header");
+    fails.finish(pass)
+}
+
+const HARNESS_ERR: &str = "c09.harness.model-outside-domain";
+
+// ------------------------------------------------------------------------------------------------
+// independent line parser (VCF grammar; no noodles code)
+// ------------------------------------------------------------------------------------------------
+
+fn pct_decode(s: &str) -> Result<String, String> {
+    let b = s.as_bytes();
+    let mut out = Vec::with_capacity(b.len());
+    let mut i = 0;
+    let hex = |c: u8| (c as char).to_digit(16);
+    while i < b.len() {
+        if b[i] == b'%' && i + 2 < b.len() {
+            if let (Some(h), Some(l)) = (hex(b[i + 1]), hex(b[i + 2])) {
+                out.push((h * 16 + l) as u8);
+                i += 3;
+                continue;
+            }
+        }
+        out.push(b[i]);
+        i += 1;
+    }
+    String::from_utf8(out).map_err(|e| format!("percent-decoded bytes are not UTF-8: {e}"))
+}
+
+fn one_char(s: &str) -> Result<char, String> {
+    let d = pct_decode(s)?;
+    let mut it = d.chars();
+    match (it.next(), it.next()) {
+        (Some(c), None) => Ok(c),
+        _ => Err(format!("{s:?} is not one (percent-encoded) character")),
+    }
+}
+
+fn p_i32(s: &str) -> Result<i32, String> {
+    s.parse::<i32>().map_err(|e| format!("integer {s:?}: {e}"))
+}
+
+fn p_f32(s: &str) -> Result<u32, String> {
+    s.parse::<f32>().map(f32::to_bits).map_err(|e| format!("float {s:?}: {e}"))
+}
+
+fn arr<T>(s: &str, one: impl Fn(&str) -> Result<T, String>) -> Result<Vec<Option<T>>, String> {
+    s.split(',').map(|e| if e == "." { Ok(None) } else { one(e).map(Some) }).collect()
+}
+
+fn indep_info_value(typing: Option<(Num, Ty)>, raw: Option<&str>) -> Result<Option<InfoValue>, String> {
+    match (typing, raw) {
+        (None, None) => Ok(Some(InfoValue::Flag)),
+        (Some((_, Ty::Flag)), None) => Ok(Some(InfoValue::Flag)),
+        (Some(_), None) => Err("typed non-Flag key without a value".into()),
+        (_, Some(".")) => Ok(None),
+        (None, Some(v)) => Ok(Some(InfoValue::String(pct_decode(v)?))),
+        (Some((_, Ty::Flag)), Some(v)) => Err(format!("Flag with value {v:?}")),
+        (Some((num, ty)), Some(v)) => {
+            let scalar = num == Num::Count(1);
+            Ok(Some(match (ty, scalar) {
+                (Ty::Integer, true) => InfoValue::Integer(p_i32(v)?),
+                (Ty::Float, true) => InfoValue::Float(p_f32(v)?),
+                (Ty::Character, true) => InfoValue::Character(one_char(v)?),
+                (Ty::String, true) => InfoValue::String(pct_decode(v)?),
+                (Ty::Integer, false) => InfoValue::IntArray(arr(v, p_i32)?),
+                (Ty::Float, false) => InfoValue::FloatArray(arr(v, p_f32)?),
+                (Ty::Character, false) => InfoValue::CharArray(arr(v, one_char)?),
+                (Ty::String, false) => InfoValue::StrArray(arr(v, pct_decode)?),
+                (Ty::Flag, _) => unreachable!(),
+            }))
+        }
+    }
+}
+
+fn indep_genotype(s: &str) -> Result<Vec<Allele>, String> {
+    let mut alleles: Vec<(Option<u32>, Option<bool>)> = Vec::new();
+    let mut cur = String::new();
+    let mut pending: Option<bool> = None;
+    let mut first = true;
+    let flush = |cur: &mut String, ph: Option<bool>, out: &mut Vec<(Option<u32>, Option<bool>)>| -> Result<(), String> {
+        let a = if cur == "." { None } else { Some(cur.parse::<u32>().map_err(|e| format!("allele {cur:?}: {e}"))?) };
+        out.push((a, ph));
+        cur.clear();
+        Ok(())
+    };
+    for ch in s.chars() {
+        if ch == '/' || ch == '|' {
+            if first && cur.is_empty() {
+                pending = Some(ch == '|');
+            } else {
+                flush(&mut cur, pending, &mut alleles)?;
+                pending = Some(ch == '|');
+            }
+            first = false;
+        } else {
+            cur.push(ch);
+            first = false;
+        }
+    }
+    flush(&mut cur, pending, &mut alleles)?;
+    let mut out: Vec<Allele> = alleles.iter().map(|(a, ph)| (*a, ph.unwrap_or(true))).collect();
+    if alleles[0].1.is_none() {
+        out[0].1 = implicit_first_phasing(&out);
+    }
+    Ok(out)
+}
+
+fn indep_sample_value(h: &VarHeader, key: &str, v: &str) -> Result<Option<SampleValue>, String> {
+    if v == "." {
+        return Ok(None);
+    }
+    if key == "GT" {
+        return indep_genotype(v).map(|g| Some(SampleValue::Genotype(g)));
+    }
+    let (num, ty) = h.format_typing(key).unwrap_or((Num::Count(1), Ty::String));
+    let scalar = num == Num::Count(1);
+    Ok(Some(match (ty, scalar) {
+        (Ty::Integer, true) => SampleValue::Integer(p_i32(v)?),
+        (Ty::Float, true) => SampleValue::Float(p_f32(v)?),
+        (Ty::Character, true) => SampleValue::Character(one_char(v)?),
+        (Ty::String, true) | (Ty::Flag, true) => SampleValue::String(pct_decode(v)?),
+        (Ty::Integer, false) => SampleValue::IntArray(arr(v, p_i32)?),
+        (Ty::Float, false) => SampleValue::FloatArray(arr(v, p_f32)?),
+        (Ty::Character, false) => SampleValue::CharArray(arr(v, one_char)?),
+        (Ty::String, false) | (Ty::Flag, false) => SampleValue::StrArray(arr(v, pct_decode)?),
+    }))
+}
+
+/// Parse one data line (without the newline) by the VCF grammar, typing values by `h`.
+pub fn indep_parse_line(h: &VarHeader, line: &str) -> Result<VarRecord, String> {
+    let f: Vec<&str> = line.split('\t').collect();
+    let want = if h.samples.is_empty() { 8 } else { 9 + h.samples.len() };
+    if f.len() != want {
+        return Err(format!("{} tab-separated columns, the header implies {}", f.len(), want));
+    }
+    if f.iter().any(|x| x.is_empty()) {
+        return Err("an empty column".into());
+    }
+    let list = |s: &str, d: char| -> Vec<String> { if s == "." { vec![] } else { s.split(d).map(String::from).collect() } };
+    let mut info = Vec::new();
+    if f[7] != "." {
+        for field in f[7].split(';') {
+            let (k, raw) = match field.split_once('=') {
+                Some((k, v)) => (k, Some(v)),
+                None => (field, None),
+            };
+            if k.is_empty() {
+                return Err("INFO field without key".into());
+            }
+            info.push((k.to_string(), indep_info_value(h.info_typing(k), raw).map_err(|e| format!("INFO {k}: {e}"))?));
+        }
+    }
+    let mut format = Vec::new();
+    let mut samples = Vec::new();
+    if !h.samples.is_empty() {
+        format = list(f[8], ':');
+        for (si, s) in f[9..].iter().enumerate() {
+            let mut row = Vec::new();
+            if *s != "." {
+                let vals: Vec<&str> = s.split(':').collect();
+                if vals.len() > format.len() {
+                    return Err(format!("sample {si} has {} values for {} keys", vals.len(), format.len()));
+                }
+                for (k, v) in format.iter().zip(vals) {
+                    if v.is_empty() {
+                        return Err(format!("sample {si}: empty value for {k}"));
+                    }
+                    row.push(indep_sample_value(h, k, v).map_err(|e| format!("sample {si} {k}: {e}"))?);
+                }
+            }
+            samples.push(row);
+        }
+    }
+    Ok(VarRecord {
+        chrom: f[0].to_string(),
+        pos: f[1].parse::<u32>().map_err(|e| format!("POS {:?}: {e}", f[1]))?,
+        ids: list(f[2], ';'),
+        reference: f[3].to_string(),
+        alts: list(f[4], ','),
+        qual: if f[5] == "." { None } else { Some(p_f32(f[5])?) },
+        filters: list(f[6], ';'),
+        info,
+        format,
+        samples,
+    })
+}
+
+// ------------------------------------------------------------------------------------------------
+// record round trip
+// ------------------------------------------------------------------------------------------------
+
+fn doc_strategy(tier: Tier) -> BoxedStrategy<VarDoc> {
+    let full = Mode { hazard_permille: 10, ..Mode::vcf_full() };
+    let with_samples = Mode { samples: SamplesMode::Always, ..full.clone() };
+    prop_oneof![2 => var::document(tier, &full), 1 => var::document(tier, &with_samples)].boxed()
+}
+
+fn field_sig(prefix: &str, field: &str) -> String {
+    format!("{prefix}.{field}")
+}
+
+fn has_reserved_char(r: &VarRecord) -> bool {
+    let bad_i = |c: &char| c.is_ascii_control() || matches!(c, ';' | '=' | '%' | ',' | '.');
+    let bad_s = |c: &char| c.is_ascii_control() || matches!(c, ':' | '%' | ',' | '.');
+    r.info.iter().any(|(_, v)| match v {
+        Some(InfoValue::Character(c)) => bad_i(c),
+        Some(InfoValue::CharArray(a)) => a.iter().flatten().any(bad_i),
+        _ => false,
+    }) || r.samples.iter().flatten().any(|v| match v {
+        Some(SampleValue::Character(c)) => bad_s(c),
+        Some(SampleValue::CharArray(a)) => a.iter().flatten().any(bad_s),
+        _ => false,
+    })
+}
+
+fn lazy_extra_sweep(header: &vcf::Header, lazy: &vcf::Record, eager: &VarRecord, fails: &mut Fails) {
+    use vcf::variant::record::samples::Series as _;
+    // Info::get for every key (and for an absent key)
+    let info = lazy.info();
+    for (k, v) in &eager.info {
+        match info.get(header, k) {
+            None => fails.push("c09.lazy.info-get", format!("Info::get({k:?}) = None for a key that iter() reports")),
+            Some(Err(e)) => fails.push("c09.lazy.info-get", format!("Info::get({k:?}) = Err({e})")),
+            Some(Ok(x)) => {
+                let got = match x {
+                    None => Ok(None),
+                    Some(x) => InfoValue::from_lazy(&x).map(Some),
+                };
+                match got {
+                    Ok(g) if &g == v => {}
+                    Ok(g) => fails.push("c09.lazy.info-get", format!("Info::get({k:?}) = {g:?}, eager has {v:?}")),
+                    Err(e) => fails.push("c09.lazy.info-get", format!("Info::get({k:?}) value: {e}")),
+                }
+            }
+        }
+    }
+    if info.get(header, "\u{1}absent").is_some() {
+        fails.push("c09.lazy.info-get", "Info::get of an absent key is Some".to_string());
+    }
+    // Samples::select / Series::iter / Series::get / Sample::get_index / Samples::get_index
+    let samples = lazy.samples();
+    let keys: Vec<&str> = samples.keys().iter().collect();
+    if keys.iter().map(|s| s.to_string()).collect::<Vec<_>>() != eager.format {
+        fails.push("c09.lazy.samples-keys", format!("Samples::keys() = {keys:?}, eager FORMAT = {:?}", eager.format));
+        return;
+    }
+    for (ki, key) in eager.format.iter().enumerate() {
+        let Some(series) = samples.select(key) else {
+            fails.push("c09.lazy.samples-select", format!("select({key:?}) = None"));
+            continue;
+        };
+        match series.name(header) {
+            Ok(n) if n == key => {}
+            other => fails.push("c09.lazy.samples-select", format!("select({key:?}).name() = {other:?}")),
+        }
+        let col: Vec<Result<Option<SampleValue>, String>> = series
+            .iter(header)
+            .map(|r| match r {
+                Err(e) => Err(e.to_string()),
+                Ok(None) => Ok(None),
+                Ok(Some(v)) => SampleValue::from_lazy(&v).map(Some),
+            })
+            .collect();
+        let want: Vec<Option<SampleValue>> = eager.samples.iter().map(|row| row.get(ki).cloned().flatten()).collect();
+        let got: Result<Vec<Option<SampleValue>>, String> = col.into_iter().collect();
+        match got {
+            Ok(g) if g == want => {}
+            Ok(g) => fails.push("c09.lazy.series-iter", format!("Series({key}).iter() = {} eager column = {}", trunc(&format!("{g:?}"), 300), trunc(&format!("{want:?}"), 300))),
+            Err(e) => fails.push("c09.lazy.series-iter", format!("Series({key}).iter(): {e}")),
+        }
+        for (si, w) in want.iter().enumerate() {
+            let g = match series.get(header, si) {
+                None => Err("None".to_string()),
+                Some(None) => Ok(None),
+                Some(Some(Err(e))) => Err(e.to_string()),
+                Some(Some(Ok(v))) => SampleValue::from_lazy(&v).map(Some),
+            };
+            // a dropped trailing field is reported as absent (None) by get(); the column view
+            // shows it as missing
+            let dropped = eager.samples[si].len() <= ki;
+            match g {
+                Ok(g) if &g == w => {}
+                Err(ref e) if dropped && e == "None" => {}
+                other => fails.push("c09.lazy.series-get", format!("Series({key}).get({si}) = {other:?}, eager = {w:?}")),
+            }
+        }
+    }
+    if samples.select("\u{1}absent").is_some() {
+        fails.push("c09.lazy.samples-select", "select of an absent key is Some".to_string());
+    }
+    let n = samples.iter().count();
+    if n != eager.samples.len() {
+        fails.push("c09.lazy.samples-iter", format!("Samples::iter() yields {n} samples, eager has {}", eager.samples.len()));
+    }
+    for (si, row) in eager.samples.iter().enumerate() {
+        let Some(sample) = samples.get_index(si) else {
+            fails.push("c09.lazy.samples-get-index", format!("get_index({si}) = None"));
+            continue;
+        };
+        for (ki, w) in row.iter().enumerate() {
+            let g = match sample.get_index(header, ki) {
+                None => Err("None".to_string()),
+                Some(None) => Ok(None),
+                Some(Some(Err(e))) => Err(e.to_string()),
+                Some(Some(Ok(v))) => SampleValue::from_lazy(&v).map(Some),
+            };
+            match g {
+                Ok(g) if &g == w => {}
+                other => fails.push("c09.lazy.sample-get-index", format!("sample {si}.get_index({ki}) = {other:?}, eager = {w:?}")),
+            }
+        }
+    }
+    if samples.get_index(eager.samples.len()).is_some() && !eager.samples.is_empty() {
+        fails.push("c09.lazy.samples-get-index", "get_index(len) is Some".to_string());
+    }
+}
+
+fn end_of(r: &dyn vcf::variant::Record, h: &vcf::Header) -> (Result<u64, String>, Result<u64, String>) {
+    (r.variant_end(h).map(|p| usize::from(p) as u64).map_err(|e| e.to_string()), r.variant_span(h).map(|s| s as u64).map_err(|e| e.to_string()))
+}
+
+fn check_doc(doc: &VarDoc) -> Verdict {
+    let mut fails = Fails::new();
+    let hm = &doc.header;
+    let header = hm.to_noodles().map_err(|e| vec![Fail::new(HARNESS_ERR, e)])?;
+    // write
+    let mut w = vcf::io::Writer::new(Vec::new());
+    w.write_header(&header).map_err(|e| vec![Fail::new("c09.header.write-error", format!("{e}"))])?;
+    let mut line_bounds = Vec::new();
+    let inputs: Vec<vcf::variant::RecordBuf> = doc.records.iter().map(|r| r.to_noodles()).collect();
+    for (i, rb) in inputs.iter().enumerate() {
+        let start = w.get_ref().len();
+        if let Err(e) = w.write_variant_record(&header, rb) {
+            let chain = std::error::Error::source(&e).map(|s| format!("{e}: {s}")).unwrap_or_else(|| e.to_string());
+            return fail1("c09.record.write-rejected", format!("record {i}: the writer rejects a valid record: {chain}; canonical text {:?}", trunc(&canonical_text(&doc.records[i], hm), 400)));
+        }
+        line_bounds.push((start, w.get_ref().len()));
+    }
+    let text = w.into_inner();
+    // read back
+    let mut reader = vcf::io::Reader::new(&text[..]);
+    let header2 = reader.read_header().map_err(|e| vec![Fail::new("c09.header.parse-error", format!("read_header on a document: {e}"))])?;
+    let mut lazy_reader = vcf::io::Reader::new(&text[..]);
+    let _ = lazy_reader.read_header().map_err(|e| vec![Fail::new("c09.header.parse-error", format!("{e}"))])?;
+    // records are typed by the header that was read (what a user has); it must mean the same
+    if VarHeader::from_noodles(&header2) != hm.normalised() {
+        fails.push("c09.header.roundtrip", "header of the document does not round-trip (see the header sub-check)".to_string());
+    }
+
+    let mut labels: Vec<&'static str> = Vec::new();
+    let mut nontrivial = false;
+    for (i, model) in doc.records.iter().enumerate() {
+        let want = model.normalised(Target::VcfText, hm);
+        let (a, b) = line_bounds[i];
+        let line_nl = &text[a..b];
+        let line = match std::str::from_utf8(line_nl) {
+            Ok(s) if s.ends_with('\n') && !s[..s.len() - 1].contains('\n') && !s.contains('\r') => &s[..s.len() - 1],
+            _ => {
+                fails.push("c09.writer.line-shape", format!("record {i}: written bytes are not one LF-terminated UTF-8 line: {:?}", trunc(&String::from_utf8_lossy(line_nl), 300)));
+                break;
+            }
+        };
+        let reserved_char = has_reserved_char(model);
+        let empty_row = want.samples.iter().any(|r| r.is_empty());
+
+        // oracle 2: independent parser on the writer's line
+        match indep_parse_line(hm, line) {
+            Ok(got) => {
+                if let Some((field, msg)) = want.first_diff(&got) {
+                    fails.push(field_sig("c09.writer", field), format!("record {i}: the written line does not say what the record holds (independent parser): {msg}; line {:?}", trunc(line, 400)));
+                }
+            }
+            Err(e) => {
+                let known_class = empty_row && e.contains("empty column");
+                let sig = if known_class { "c09.writer.empty-sample-row".to_string() } else { "c09.writer.ungrammatical-line".to_string() };
+                fails.push(sig, format!("record {i}: the written line is not grammatical VCF: {e}; line {:?}", trunc(line, 400)));
+                if known_class {
+                    // the line is not VCF: what the readers make of it says nothing; keep them in step
+                    let mut rb = vcf::variant::RecordBuf::default();
+                    let _ = reader.read_record_buf(&header2, &mut rb);
+                    let mut lazy = vcf::Record::default();
+                    let _ = lazy_reader.read_record(&mut lazy);
+                    continue;
+                }
+            }
+        }
+
+        // oracle 1: eager read
+        let mut rb = vcf::variant::RecordBuf::default();
+        let eager = match reader.read_record_buf(&header2, &mut rb) {
+            Ok(0) => {
+                fails.push("c09.reader.early-eof", format!("record {i}: read_record_buf returned 0"));
+                break;
+            }
+            Ok(_) => Some(VarRecord::from_record_buf(&rb)),
+            Err(e) => {
+                let chain = std::error::Error::source(&e).map(|s| format!("{e}: {s}")).unwrap_or_else(|| e.to_string());
+                let sig = if reserved_char && chain.contains("invalid") { "c09.reader.percent-encoded-character-rejected" } else if empty_row { "c09.reader.empty-sample-row" } else { "c09.reader.rejects-written-line" };
+                fails.push(sig, format!("record {i}: read_record_buf rejects the writer's line: {chain}; line {:?}", trunc(line, 400)));
+                None
+            }
+        };
+        if let Some(eager) = &eager {
+            if let Some((field, msg)) = want.first_diff(&eager.normalised(Target::VcfText, hm)) {
+                fails.push(field_sig("c09.roundtrip", field), format!("record {i}: parse(write(x)) != x: {msg}; line {:?}", trunc(line, 400)));
+            }
+            // oracle 5: write(parse(line)) = line
+            let mut w2 = vcf::io::Writer::new(Vec::new());
+            match w2.write_variant_record(&header2, &rb) {
+                Ok(()) => {
+                    if w2.get_ref() != line_nl {
+                        fails.push(if empty_row { "c09.rewrite.empty-sample-row" } else { "c09.rewrite" }, format!("record {i}: write(parse(line)) != line: {:?} vs {:?}", trunc(&String::from_utf8_lossy(w2.get_ref()), 300), trunc(line, 300)));
+                    }
+                }
+                Err(e) => fails.push("c09.rewrite", format!("record {i}: the parsed record cannot be written: {e}")),
+            }
+        }
+
+        // oracle 3: lazy record on the same line
+        let mut lazy = vcf::Record::default();
+        match lazy_reader.read_record(&mut lazy) {
+            Ok(0) => {
+                fails.push("c09.reader.early-eof", format!("record {i}: read_record returned 0"));
+                break;
+            }
+            Err(e) => {
+                fails.push("c09.lazy.read-error", format!("record {i}: read_record: {e}"));
+                break;
+            }
+            Ok(n) => {
+                if n != line_nl.len() {
+                    fails.push("c09.lazy.read-count", format!("record {i}: read_record returned {n}, the line has {} bytes", line_nl.len()));
+                }
+            }
+        }
+        match VarRecord::from_variant_record(&header2, &lazy) {
+            Ok(lz) => {
+                // the lazy view decodes lazily: compare with the eager parse when there is one,
+                // else with the input
+                let reference = eager.clone().unwrap_or_else(|| want.clone());
+                if let Some((field, msg)) = reference.normalised(Target::VcfText, hm).first_diff(&lz.normalised(Target::VcfText, hm)) {
+                    fails.push(field_sig("c09.lazy-vs-eager", field), format!("record {i}: lazy accessors differ from the eager parse: {msg}; line {:?}", trunc(line, 400)));
+                } else if let Some(e) = &eager {
+                    // exact agreement (no normal form) between the two views of the same bytes
+                    if e != &lz && e.normalised(Target::VcfText, hm) == lz.normalised(Target::VcfText, hm) {
+                        // only NaN payloads / `[.]` can differ here, and both come from the same text
+                        if let Some((field, msg)) = e.first_diff(&lz) {
+                            let benign = field == "info-value" || field == "sample-value" || field == "sample-row-len";
+                            if !benign {
+                                fails.push(field_sig("c09.lazy-vs-eager", field), format!("record {i}: {msg}"));
+                            }
+                        }
+                    }
+                }
+                if let Some(e) = &eager {
+                    lazy_extra_sweep(&header2, &lazy, e, &mut fails);
+                }
+            }
+            Err(e) => {
+                let sig = if empty_row { "c09.lazy.empty-sample-row" } else { "c09.lazy.accessor-error" };
+                fails.push(sig, format!("record {i}: a lazy accessor fails on the writer's line: {e}; line {:?}", trunc(line, 400)));
+            }
+        }
+        match vcf::variant::RecordBuf::try_from_variant_record(&header2, &lazy) {
+            Ok(conv) => {
+                if let Some(e) = &eager {
+                    if let Some((field, msg)) = e.first_diff(&VarRecord::from_record_buf(&conv)) {
+                        // NaN != NaN bitwise cannot happen here: both are parsed from the same text
+                        fails.push(field_sig("c09.lazy-convert", field), format!("record {i}: RecordBuf::try_from_variant_record(lazy) != eager parse: {msg}"));
+                    }
+                }
+            }
+            Err(e) => {
+                if eager.is_some() {
+                    fails.push("c09.lazy-convert.error", format!("record {i}: try_from_variant_record fails where read_record_buf succeeds: {e}"));
+                }
+            }
+        }
+        let mut w3 = vcf::io::Writer::new(Vec::new());
+        match w3.write_record(&header2, &lazy) {
+            Ok(()) => {
+                if w3.get_ref() != line_nl {
+                    fails.push(if empty_row { "c09.rewrite.empty-sample-row" } else { "c09.lazy.rewrite" }, format!("record {i}: writing the lazy record gives {:?}, the line was {:?}", trunc(&String::from_utf8_lossy(w3.get_ref()), 300), trunc(line, 300)));
+                }
+            }
+            Err(e) => {
+                if eager.is_some() {
+                    fails.push("c09.lazy.rewrite", format!("record {i}: writing the lazy record fails: {e}"));
+                }
+            }
+        }
+
+        // oracle 4: spans
+        let (in_end, in_span) = end_of(&inputs[i], &header);
+        let (lz_end, lz_span) = end_of(&lazy, &header2);
+        if let Some(_) = &eager {
+            let (eg_end, eg_span) = end_of(&rb, &header2);
+            if eg_end.as_ref().ok() != lz_end.as_ref().ok() || eg_end.is_ok() != lz_end.is_ok() {
+                fails.push("c09.span.lazy-vs-eager", format!("record {i}: variant_end eager={eg_end:?} lazy={lz_end:?}; line {:?}", trunc(line, 300)));
+            }
+            if eg_span.as_ref().ok() != lz_span.as_ref().ok() || eg_span.is_ok() != lz_span.is_ok() {
+                fails.push("c09.span.lazy-vs-eager", format!("record {i}: variant_span eager={eg_span:?} lazy={lz_span:?}"));
+            }
+            if eg_end.as_ref().ok() != in_end.as_ref().ok() {
+                fails.push("c09.span.input-vs-read", format!("record {i}: variant_end input={in_end:?} read back={eg_end:?}"));
+            }
+        }
+        if let Some(h_end) = harness_end(model, hm) {
+            let h_span = h_end as i64 - model.pos.max(1) as i64 + 1;
+            for (who, e, s) in [("input", &in_end, &in_span), ("lazy", &lz_end, &lz_span)] {
+                if e.as_ref().ok() != Some(&h_end) {
+                    fails.push("c09.span.end", format!("record {i}: variant_end of the {who} record = {e:?}, expected {h_end} (POS {} REF {:?} fileformat 4.{})", model.pos, trunc(&model.reference, 40), hm.minor));
+                } else if s.as_ref().ok().map(|x| *x as i64) != Some(h_span) {
+                    fails.push("c09.span.span", format!("record {i}: variant_span of the {who} record = {s:?}, expected {h_span}"));
+                }
+            }
+        }
+
+        // accounting
+        nontrivial |= !model.info.is_empty() || !model.samples.is_empty();
+        let mut l = |c: bool, s: &'static str| {
+            if c && !labels.contains(&s) {
+                labels.push(s);
+            }
+        };
+        l(model.pos == 0, "pos-telomere");
+        l(model.ids.len() >= 2, "ids>=2");
+        l(model.alts.is_empty(), "alt-missing");
+        l(model.alts.len() >= 2, "alt>=2");
+        l(model.alts.iter().any(|a| a.starts_with('<')), "alt-symbolic");
+        l(model.alts.iter().any(|a| a.contains('[') || a.contains(']')), "alt-breakend");
+        l(model.qual.map(|b| f32::from_bits(b).is_nan()).unwrap_or(false), "qual-nan");
+        l(model.qual.map(|b| f32::from_bits(b).is_infinite()).unwrap_or(false), "qual-inf");
+        l(model.qual.is_none(), "qual-missing");
+        l(model.filters.is_empty(), "filter-missing");
+        l(model.filters == ["PASS"], "filter-pass");
+        l(model.filters.len() >= 2, "filters>=2");
+        l(model.info.is_empty(), "info-missing");
+        l(model.info.iter().any(|(_, v)| v.is_none()), "info-value-missing");
+        l(model.info.iter().any(|(_, v)| matches!(v, Some(InfoValue::Flag))), "info-flag");
+        l(model.info.iter().any(|(k, _)| hm.info(k).is_none()), "info-undeclared-key");
+        l(model.info.iter().any(|(k, _)| hm.info(k).is_none() && reserved_info_def(hm.minor, k).is_some()), "info-reserved-undeclared");
+        l(model.info.iter().any(|(_, v)| matches!(v, Some(InfoValue::IntArray(a)) if a.iter().any(|x| x.is_none()))), "info-array-missing-element");
+        l(model.info.iter().any(|(_, v)| matches!(v, Some(InfoValue::StrArray(_)))), "info-string-array");
+        l(model.info.iter().any(|(_, v)| matches!(v, Some(InfoValue::CharArray(_)) | Some(InfoValue::Character(_)))), "info-character");
+        l(model.info.iter().any(|(_, v)| matches!(v, Some(InfoValue::FloatArray(_)) | Some(InfoValue::Float(_)))), "info-float");
+        let strs = || {
+            model
+                .info
+                .iter()
+                .flat_map(|(_, v)| match v {
+                    Some(InfoValue::String(s)) => vec![s.clone()],
+                    Some(InfoValue::StrArray(a)) => a.iter().flatten().cloned().collect(),
+                    _ => vec![],
+                })
+                .chain(model.samples.iter().flatten().flat_map(|v| match v {
+                    Some(SampleValue::String(s)) => vec![s.clone()],
+                    Some(SampleValue::StrArray(a)) => a.iter().flatten().cloned().collect(),
+                    _ => vec![],
+                }))
+        };
+        l(strs().any(|s| s.contains('%')), "string-with-percent");
+        l(strs().any(|s| s.contains(';') || s.contains('=') || s.contains(',') || s.contains(':')), "string-with-delimiter");
+        l(strs().any(|s| s.chars().any(|c| c.is_ascii_control())), "string-with-control");
+        l(strs().any(|s| !s.is_ascii()), "string-non-ascii");
+        l(strs().any(|s| s == "."), "string-lone-dot");
+        l(reserved_char, "hazard:character-needs-encoding");
+        l(empty_row, "hazard:empty-sample-row");
+        l(!model.samples.is_empty(), "samples");
+        l(hm.samples.is_empty(), "no-samples");
+        l(model.format.first().map(|k| k == "GT").unwrap_or(false), "GT");
+        l(model.samples.iter().any(|r| r.len() < model.format.len() && !r.is_empty()), "trailing-fields-dropped");
+        l(model.samples.iter().flatten().any(|v| v.is_none()), "sample-value-missing");
+        let gts = || model.samples.iter().flatten().filter_map(|v| if let Some(SampleValue::Genotype(g)) = v { Some(g) } else { None });
+        l(gts().any(|g| g.len() == 1), "gt-haploid");
+        l(gts().any(|g| g.len() >= 3), "gt-ploidy>=3");
+        l(gts().any(|g| g.iter().any(|a| a.0.is_none())), "gt-missing-allele");
+        l(gts().any(|g| g.len() >= 2 && g.iter().skip(1).any(|a| a.1) && g.iter().skip(1).any(|a| !a.1)), "gt-mixed-phasing");
+        l(hm.minor >= 4 && gts().any(|g| g[0].1 != implicit_first_phasing(g)), "gt-explicit-first-phasing");
+        l(model.info.iter().any(|(k, _)| k == "END"), "END");
+        l(model.info.iter().any(|(k, _)| k == "SVLEN"), "SVLEN");
+        l(model.reference != want.reference, "ref-iupac");
+        l(hm.minor == 5 && (model.info.iter().any(|(k, _)| k == "SVLEN") || model.format.iter().any(|k| k == "LEN")), "v4.5-svlen-or-len");
+    }
+    // after the last record both readers are at EOF
+    if fails.is_empty() {
+        let mut rb = vcf::variant::RecordBuf::default();
+        match reader.read_record_buf(&header2, &mut rb) {
+            Ok(0) => {}
+            other => fails.push("c09.reader.trailing", format!("after the last record read_record_buf returns {other:?}")),
+        }
+    }
+    let mut pass = Pass::new(nontrivial, key_of(doc)).label(["v4.2", "v4.3", "v4.4", "v4.5", "v?"][(hm.minor as usize).saturating_sub(2).min(4)]).evals(doc.records.len().max(1) as u64);
+    for s in labels {
+        pass = pass.label(s);
+    }
+    pass = pass.label_if(doc.records.is_empty(), "header-only");
+    fails.finish(pass)
+}
+
+/// The contract of `Mode::vcf_safe()` towards the other properties that reuse the generator: such
+/// documents pass every oracle above on the pinned tree — known findings included (their
+/// signatures are re-labelled so that the known-findings list does not excuse them here).
+fn safe_strategy(tier: Tier) -> BoxedStrategy<VarDoc> {
+    var::document(tier, &Mode::vcf_safe())
+}
+
+fn check_safe(doc: &VarDoc) -> Verdict {
+    check_doc(doc).map_err(|fails| fails.into_iter().map(|f| Fail::new(format!("c09.safe-domain:{}", f.sig), f.msg)).collect())
+}
 
 pub fn property() -> Property {
-    Property { id: "C09", level: "exploration", rule: "", assumptions: vec![], subs: vec![], max_parallel: 16 }
+    Property {
+        id: "C09",
+        level: "exploration",
+        rule: "VCF headers (fileformat 4.2–4.5; INFO/FORMAT with every Number×Type and reserved ids, FILTER, ALT, contig, other/META/PEDIGREE lines, extra tags, optional IDX, samples) and records consistent with them (gen::var, Mode::vcf_full)",
+        assumptions: vec![
+            "the harness's own line parser (props/c09.rs, written from the VCF grammar) and span arithmetic (gen::var::harness_end) are correct".into(),
+            "Rust's std float parsing/formatting is correct (used by both noodles and the independent parser)".into(),
+            "normal forms: NaN payload/sign not representable in text; `[.]` ≡ `.`; REF IUPAC codes reduced as VCF §1.6.1.4 prescribes; first-allele phasing implicit before 4.4".into(),
+        ],
+        subs: vec![
+            sub("header", "non-trivial = ≥3 structured lines; distinct by hash of the header model", header_strategy, check_header, 20_000, 600_000).boxed(),
+            sub(
+                "records",
+                "one case = header + 0..10 records, each record is one evaluation; non-trivial = some record has an INFO field or sample columns; distinct by hash of the document",
+                doc_strategy,
+                check_doc,
+                12_000,
+                400_000,
+            )
+            .boxed(),
+            sub("safe_domain", "documents of Mode::vcf_safe() (what other properties reuse): must pass all record oracles with no known finding; non-trivial as in `records`", safe_strategy, check_safe, 3_000, 60_000).boxed(),
+        ],
+        max_parallel: 16,
+    }
 }
